@@ -20,7 +20,9 @@ RULE = ('A: Hypothesis draws SMIv1 module sets (1-2 modules; value declarations,
         'VARIABLES, plain types over Counter / Gauge / NetworkAddress / INTEGER / OCTET STRING ...), each rendered as '
         'SMIv1 and as its SMIv2 transliteration; non-trivial = >= 1 SMIv1 application type and (a TRAP-TYPE with '
         'variables or a table). B: all (SMIv1 base module, symbol) pairs of the reference table (vlib/smiv1ref.py) '
-        'are enumerated completely - each pair is one distinct non-trivial case.')
+        'are enumerated completely - each pair is one distinct non-trivial case; Hypothesis additionally draws IMPORTS '
+        'sections with 2-5 such imports in any clause order (non-trivial: >= 2 base modules). A also compiles the SMIv1 '
+        'text parsed with the smiV2 grammar.')
 ASSUMPTIONS = [
     'the reference import table is transcribed from RFC 1155/1212/1213/1215/1158 and RFC 2578-2580, 3418, 2863, '
     '4293, 4022, 4113; symbols without an SMIv2 home (at*, egp*, ipRoute*) are not cases',
